@@ -235,7 +235,7 @@ func (s *service) ShareContact(ctx context.Context, _ *protocoltypes.ShareContac
 func (s *service) DecodeContact(_ context.Context, req *protocoltypes.DecodeContact_Request) (_ *protocoltypes.DecodeContact_Reply, err error) {
 	contact := &protocoltypes.ShareableContact{}
 	if err := proto.Unmarshal(req.EncodedContact, contact); err != nil {
-		panic(err)
+		return nil, errcode.ErrCode_ErrDeserialization.Wrap(err)
 	}
 
 	return &protocoltypes.DecodeContact_Reply{
